@@ -86,6 +86,35 @@ func genDecimal(rt *rapid.T, label string, maxIntDigits int) string {
 	return s
 }
 
+// makeTie rewrites the decimal literal so that the digit after position d (d > 0: fractional
+// digit d; d <= 0: integer digit 10^-d) is a 5 with nothing behind it.
+func makeTie(lit string, d int) string {
+	neg := strings.HasPrefix(lit, "-")
+	lit = strings.TrimPrefix(lit, "-")
+	ip, fp := lit, ""
+	if i := strings.IndexByte(lit, '.'); i >= 0 {
+		ip, fp = lit[:i], lit[i+1:]
+	}
+	if d >= 0 {
+		fp = (fp + strings.Repeat("0", d))[:d] + "5"
+	} else {
+		k := -d
+		for len(ip) < k+1 {
+			ip = "1" + ip
+		}
+		ip = ip[:len(ip)-k] + "5" + strings.Repeat("0", k-1)
+		fp = ""
+	}
+	lit = ip
+	if fp != "" {
+		lit += "." + fp
+	}
+	if neg {
+		lit = "-" + lit
+	}
+	return lit
+}
+
 func fracDigits(lit string) int {
 	if i := strings.IndexByte(lit, '.'); i >= 0 {
 		return len(lit) - i - 1
@@ -105,6 +134,13 @@ func TestC34Num(t *testing.T) {
 			st.Class("x:bounded-by-" + kfCeilFloorSat)
 		}
 		xl := genDecimal(rt, "x", maxDigits)
+		d := rapid.IntRange(-4, 9).Draw(rt, "d")
+		if rapid.IntRange(0, 9).Draw(rt, "dWide") == 0 {
+			d = rapid.IntRange(-25, 25).Draw(rt, "dFar")
+		}
+		if d >= -3 && d <= 7 && rapid.IntRange(0, 3).Draw(rt, "makeTie") == 0 {
+			xl = makeTie(xl, d) // an exact rounding tie at digit d: ...5 and nothing behind it
+		}
 		x := rat(xl)
 		isBigUnsignedInt := func() bool {
 			return !strings.Contains(xl, ".") && x.Cmp(maxInt64Rat) > 0 && x.Cmp(new(big.Rat).SetInt(new(big.Int).SetUint64(math.MaxUint64))) <= 0
@@ -128,10 +164,6 @@ func TestC34Num(t *testing.T) {
 			st.Excluded(kfSignRounds)
 			xl = strings.Replace(xl, "0.", "3.", 1)
 			x = rat(xl)
-		}
-		d := rapid.IntRange(-4, 9).Draw(rt, "d")
-		if rapid.IntRange(0, 9).Draw(rt, "dWide") == 0 {
-			d = rapid.IntRange(-25, 25).Draw(rt, "dFar")
 		}
 		// integer argument
 		var iv int64
@@ -344,7 +376,11 @@ func TestC34Num(t *testing.T) {
 			}
 		}
 		add("SIGN(x)", f("SIGN(%s)", X), []string{"x"}, wantInt(int64(x.Sign()))).known = knownSign(x)
-		add("SIGN(x)*ABS(x) = x", f("SIGN(%s)*ABS(%s)", X, X), []string{"x"}, wantRat(x)).known = knownSign(x)
+		if !bigUnsigned {
+			// (for a BIGINT UNSIGNED literal >= 2^63 the product of a signed and an unsigned integer is
+			// the arithmetic operator's business, C25)
+			add("SIGN(x)*ABS(x) = x", f("SIGN(%s)*ABS(%s)", X, X), []string{"x"}, wantRat(x)).known = knownSign(x)
+		}
 		// ---- integers ------------------------------------------------------------------------
 		ir := new(big.Rat).SetInt64(iv)
 		if rr := refRound(ir, d); inInt64(rr) {
